@@ -216,7 +216,9 @@ def significant_digits(fmt):
 def _format_clauses(c):
     mat, kw, a = sym.cur().ghost.get("savetxt", (None, {}, ()))
     fmt = kw.get("fmt", a[0] if a else "%.18e")
-    yield Clause("every_value_written_with_at_least_17_significant_digits", isinstance(fmt, str) and significant_digits(fmt) >= 17,
+    fmts = [fmt] if isinstance(fmt, str) else (list(fmt) if isinstance(fmt, (list, tuple)) else [None])
+    yield Clause("every_value_written_with_at_least_17_significant_digits", all(isinstance(f_, str) and significant_digits(f_) >= 17
+                                                                                for f_ in fmts),
                  role="prop", props=["C06"], note="IEEE-754: 17 significant decimal digits identify a double (trusted round-trip axiom)")
     yield Clause("space_separated", kw.get("delimiter", " ") == " ", role="prop", props=["C07"])
 
